@@ -8,22 +8,22 @@ CHECKS = {
  # id: (category, technique, text, note, design_ref)
  "C04": ("exploration",
          "exhaustive enumeration of small sub-domains + proptest random strings/keys/buffers vs independent reference (refcrypt, lookup3); round-trip and fold-invariance relations",
-         "Every crypt-table entry and every ≤2-byte UTF-8 string is compared with an independent transcription of the published MPQ hash for all four hash types; 60k (quick) / 2M (thorough) generated names add equality, case/slash invariance and het_hash-vs-lookup3 for widths 8..64; the cipher is inverted and compared with the reference for every small length and for random buffers up to 64 KiB incl. lengths not divisible by 4, on whole buffers and on sub-slices at every byte offset 1..7 of a larger buffer (result must not depend on buffer position, bytes outside untouched). The HET/BET table cipher is checked end to end on builder-made V3 (1 700 files) and V4 (3 100 files) archives: every name resolves, absent names do not, and HetTable::read / BetTable::read on the stored encrypted table agree on every lookup with the same readers on a copy decrypted in one piece by the reference cipher. Exploration is the right level: the domain is infinite, the small sub-domains are enumerated completely.",
+         "Every crypt-table entry and every ≤2-byte UTF-8 string is compared with an independent transcription of the published MPQ hash for all four hash types; 60k (quick) / 2M (thorough) generated names add equality, case/slash invariance and het_hash-vs-lookup3 for widths 8..64; the cipher is inverted and compared with the reference for every small length and for random buffers up to 64 KiB incl. lengths not divisible by 4, on whole buffers and on sub-slices at every byte offset 1..7 of a larger buffer (result must not depend on buffer position, bytes outside untouched). The HET/BET table cipher is checked end to end on builder-made V3 (1 700 files) and V4 (3 100 files) archives: every name resolves, absent names do not, and HetTable::read / BetTable::read on the stored encrypted table agree on every lookup with the same readers on a copy decrypted in one piece by the reference cipher; the BET name hashes the builder stores for 300 letterless names equal the low part of the reference lookup3 value; encrypted files (plain and position-adjusted key) of builder-made archives read identically behind 0/1/3/64 × 512 foreign bytes. Exploration is the right level: the domain is infinite, the small sub-domains are enumerated completely.",
          "Trusted: my reference transcriptions (self-checked against published constants: (hash table)/(block table) keys, spec hash examples, lookup3 driver vectors). Non-UTF-8 byte strings cannot be passed through the &str API. Cipher-vs-reference equality is not demanded for key 0. One open finding: het_hash folds names to upper case where the published algorithm folds to lower case (pinned by an existing unit test, so not repairable here); the reference is the published algorithm (lower case, top bit set for every width) and a result equal to the upper-case variant is reported under that one signature only.",
          "DESIGN.md §4 C04"),
  "C05": ("exploration",
-         "engine A: deterministic structured mutation of valid seeds (prefixes, boundary-value substitution incl. inside decrypted MPQ tables, byte-wide substitution over chunk payload heads and ADT MH2O liquid instances, chunk delete/dup/swap/resize, seeded havoc, garbage) judged in supervised worker processes with a tracking allocator, CPU budget and panic capture; engine B: coverage-guided fuzzing (cargo-fuzz/libFuzzer, 15 targets × seeded and empty corpus, fixed -runs/-seed work, known open panics tolerated in-target) whose artifacts are re-judged by engine A's worker",
+         "engine A: deterministic structured mutation of valid seeds (prefixes, boundary-value substitution incl. inside decrypted MPQ tables, byte-wide substitution over chunk payload heads and ADT MH2O liquid instances (the DBC entry point also drives schema-driven access paths: string references through plain, cached and lazy resolvers, key lookups, iterator skips), chunk delete/dup/swap/resize, seeded havoc, garbage) judged in supervised worker processes with a tracking allocator, CPU budget and panic capture; engine B: coverage-guided fuzzing (cargo-fuzz/libFuzzer, 15 targets × seeded and empty corpus, fixed -runs/-seed work, known open panics tolerated in-target) whose artifacts are re-judged by engine A's worker",
          "≈332k (quick) / 5M (thorough) mutated inputs over 15 format families (MPQ archives V1..V4, (attributes) and (listfile) special files, COPY/BSD0 patch files, compressed streams for 11 method bytes, M2, skin, anim, ADT, WMO root/group, BLP, DBC, WDT, WDL — ≈280 valid seeds built with the crates' own writers or by hand) are run through every public open/parse/list/read entry point. A case fails if the worker panics, aborts, overflows its stack, exceeds 10 CPU-seconds, or requests one allocation above max(64 MiB, 256×input) or more than 1 GiB live; the first /repo frame of an oversized allocation or the panic site is the signature. Exploration is the only honest level for a ∀-bytes property.",
          "Engine B runs 30 libFuzzer campaigns per check run (quick: smoke depth, 15k–400k runs each; thorough: 60k–5M runs each, ≈19 min); an artifact that does not reproduce in the supervised worker (libFuzzer's stricter malloc/timeout limits) is counted, not reported. libFuzzer corpus evolution is only approximately reproducible from the seed. Absence of crashes outside the explored inputs is not shown. Results are not judged, only totality. One open finding (zune-jpeg dependency panics).",
          "DESIGN.md §4 C05, §7"),
  "C08": ("exploration",
          "model-based operation histories (bounded-exhaustive ≤3/≤4 over a 22-letter alphabet + proptest histories) against a priority-list model; differential testing of PTCH/BSD0/COPY application against an independent RLE+BSDIFF40+MD5 reference on patches built from random edit scripts; enumerated field/byte alterations in supervised workers with a tracking allocator; archive-level patch entries written by an independent MPQ writer",
-         "On every explored history of add/remove/set-priority/clear, read_file, contains_file, find_file_archive and list agree with the model (highest priority wins, earliest added among equals, listing is the union, absent names not found) — 11 662 short histories quick / 256 566 thorough, random histories over up to 4 archives incl. parallel batch adds with and without a path that is not an archive, sequential and parallel construction, patch archives at a priority above or equal to the base archive's. Every accepted well-formed COPY or BSD0 patch yields exactly the reference result with the declared digest; every altered patch is rejected or yields bytes matching the digests it declares; no panic or out-of-proportion allocation.",
-         "Bounded-exhaustive only for short histories over 3 fixed archives; an Err on a valid patch is permitted by the statement (valid patches with interior negative seeks are in fact always rejected — counted); no claim about rayon schedules, listfile-less members or duplicate membership. After a failed parallel batch add the chain is judged against the member set it reports itself (atomicity of the failed call is not demanded). No open finding.",
+         "On every explored history of add/remove/set-priority/clear, read_file, contains_file, find_file_archive and list agree with the model (highest priority wins, earliest added among equals, listing is the union, absent names not found) — 11 662 short histories quick / 256 566 thorough, random histories over up to 4 archives incl. parallel batch adds with and without a path that is not an archive, sequential and parallel construction, patch archives at a priority above or equal to the base archive's, chains of 21/26/40 members with long runs of ties, sectored patch entries whose stream fills whole sectors. Every accepted well-formed COPY or BSD0 patch yields exactly the reference result with the declared digest; every altered patch is rejected or yields bytes matching the digests it declares; no panic or out-of-proportion allocation.",
+         "Bounded-exhaustive only for short histories over 3 fixed archives (longer chains are fixed cases); an Err on a valid patch is permitted by the statement (valid patches with interior negative seeks are in fact always rejected — counted); no claim about rayon schedules, listfile-less members or duplicate membership. After a failed parallel batch add the chain is judged against the member set it reports itself (atomicity of the failed call is not demanded). No open finding.",
          "DESIGN.md §4 C08"),
  "C11": ("exploration",
          "property-based testing of the real CLI process: grammar-generated hostile archive names, recursive filesystem-snapshot oracle over a fully observed sandbox, kernel-confined (Landlock) child",
-         "Over 2 144 (quick) / 40 144 (thorough) runs of `warcraft-rs mpq extract` on generated archives (27 hostile-name token classes incl. a sibling directory whose name starts with the output directory's name × preserve-paths × 0–2 patch archives × explicit/whole × skip-errors × threads × listfile kinds) every filesystem change in the sandbox must be inside the requested output directory; an EACCES from the confinement is a second observation channel.",
+         "Over 2 144 (quick) / 40 144 (thorough) runs of `warcraft-rs mpq extract` on generated archives (27 hostile-name token classes incl. a sibling directory whose name starts with the output directory's name; fixed shapes: archives of 1 001 / 1 500 entries with hostile directory parts, a hostile name right after a benign sibling of the same directory × preserve-paths × 0–2 patch archives × explicit/whole × skip-errors × threads × listfile kinds) every filesystem change in the sandbox must be inside the requested output directory; an EACCES from the confinement is a second observation channel.",
          "Exit status not judged (C20); unix path semantics only; no pre-existing symlinks in OUT. Needs Linux ≥ 5.13 with Landlock (exit 2 otherwise): the child is never started unconfined.",
          "DESIGN.md §4 C11"),
  "C20": ("exploration",
@@ -33,22 +33,22 @@ CHECKS = {
          "DESIGN.md §4 C20"),
  "C01": ("exploration",
          "proptest-generated archive specs + bounded-exhaustive configuration grid; round-trip oracle against generator ground truth, listing and absent-name (collision-searched) probes",
-         "Archives are generated over version × sector shift × CRC × attributes × listfile × table compression × per-file method/encryption/size class/content class (sizes placed at S−1, S, S+1, kS/2±2; content that makes some sectors raw and others compressed); every added file is read back under five spellings and compared with the generator's bytes, the listing is compared as a set with sizes, and never-added names (edits, prefixes, names searched to collide with a hash-table start slot or an 8-bit HET hash) must be not-found. A deterministic grid (version × shift{0,3} × 12 selectors × 3 encryption modes × CRC × 9 size classes × content) reaches every essential class whatever the seed. Exploration, not proof: the space is unbounded.",
+         "Archives are generated over version × sector shift × CRC × attributes × listfile × table compression × per-file method/encryption/language id/size class/content class (sizes placed at S−1, S, S+1, kS/2±2; content that makes some sectors raw and others compressed); every added file is read back under five spellings and compared with the generator's bytes, the listing is compared as a set with sizes, and never-added names (edits, prefixes, names searched to collide with a hash-table start slot or an 8-bit HET hash) must be not-found. A deterministic grid (version × shift{0,3} × 12 selectors × 3 encryption modes × CRC × 9 size classes × content) reaches every essential class whatever the seed. Exploration, not proof: the space is unbounded.",
          "Lossy ADPCM selectors: only length compared. Logical duplicate names are not generated. Archives > 4 GiB out of reach. No open finding (all earlier ones were repaired in /repo).",
          "DESIGN.md §4 C01"),
  "C02": ("exploration",
          "two-way differential against an independent MPQ reader/writer (refmpq) written from the published format; proptest-generated archives on both sides + grids",
-         "Direction A parses ArchiveBuilder output with refmpq (header fields, table keys, reference probing, per-sector method bytes, standard zlib/bzip2 streams, file keys from the plain name, trailing bytes in clear) and demands bit-identical extraction; direction B serialises abstract archives with refmpq's writer (collision chains through DELETED markers, gaps, reversed order, header behind junk at a 512-aligned offset, single-unit and sectored, raw-sectored uncompressed files, encrypted/fix-key) and demands that Archive::open reads every file bit-identically under each spelling and does not find deleted names. The reference must read its own output first (else exit 2).",
+         "Direction A parses ArchiveBuilder output with refmpq (header fields, table keys, reference probing, locale/platform fields of the hash entries, per-sector method bytes, standard zlib/bzip2 streams, file keys from the plain name, trailing bytes in clear) and demands bit-identical extraction; direction B serialises abstract archives with refmpq's writer (collision chains through DELETED markers, gaps, reversed order, header behind junk at a 512-aligned offset, single-unit and sectored, raw-sectored uncompressed files, encrypted/fix-key) and demands that Archive::open reads every file bit-identically under each spelling and does not find deleted names. The reference must read its own output first (else exit 2).",
          "The reference is my reading of the published format, not StormLib itself. Subset: V1/V2, classic tables, none/zlib/bzip2; sector checksums (checksum sector behind the data, ADLER32 of the stored sectors, compressed when smaller, never encrypted) are written and verified by the reference on both sides.",
          "DESIGN.md §4 C02"),
  "C07": ("exploration",
          "proptest-generated (source archive × rebuild options) + 4×4 version grid; oracle = generator ground truth vs target contents, listing, summary counts, compare_archives (with metamorphic control)",
-         "Sources from the shared generator that read back correctly are rebuilt under generated options; every expected name must read bit-identically from the target, nothing unexpected may be listed, skip filters must be honoured, summary counts must equal what is in the archives, and compare_archives must report no content difference; sources include archives whose user-supplied listfile does not name itself and archives that start behind a prefix (archive offset ≠ 0); a rebuild that fails under verify=true is re-run with verify=false and must not turn out complete (verification may not reject a correct result) — the comparator itself is validated by a twin/one-byte-different control so an always-identical comparator cannot pass.",
+         "Sources from the shared generator that read back correctly are rebuilt under generated options; every expected name must read bit-identically from the target, nothing unexpected may be listed, skip filters must be honoured, summary counts must equal what is in the archives, and compare_archives must report no content difference; sources include archives whose user-supplied listfile does not name itself and archives that start behind a prefix (archive offset ≠ 0); a rebuild that fails under verify=true is re-run with verify=false and must not turn out complete (verification may not reject a correct result); a dry run (list_only) is followed by the real run and must have announced its counts — the comparator itself is validated by a twin/one-byte-different control so an always-identical comparator cannot pass.",
          "A rebuild returning Err is accepted (not silent loss) and counted; listfile-less sources have no listed names, so only 'Ok but files missing' is judged there.",
          "DESIGN.md §4 C07"),
  "C09": ("exploration",
          "differential: parallel interfaces vs one sequential handle, proptest request lists with duplicates/missing names, grid over both code paths (≤1000 / >1000 / >5000), repetition under CPU contention",
-         "Every parallel interface (extract_with_config on both code paths, ParallelArchive::*, multi-archive helpers) must return one slot per request in request order, each equal to the sequential read (bytes or error kind); skip_errors isolates a missing name to its own slot, without it the call fails as a whole; repeated calls (half under 16 busy threads) must be identical; the configuration is built in every order of its three setters, archives come with a generated, no, or a partial user-supplied listfile; multi-archive helpers get request lists above the batching thresholds in shuffled order and archives with one damaged member (skip_errors on: its own slot fails; off: the call fails).",
+         "Every parallel interface (extract_with_config on both code paths, ParallelArchive::*, multi-archive helpers) must return one slot per request in request order, each equal to the sequential read (bytes or error kind); skip_errors isolates a missing name to its own slot, without it the call fails as a whole; repeated calls (half under 16 busy threads) must be identical; the configuration is built in every order of its three setters, archives come with a generated, no, or a partial user-supplied listfile; multi-archive helpers get request lists above the batching thresholds in shuffled order and archives with one damaged member (skip_errors on: its own slot fails; off: the call fails); archive lists are given in caller order, not path order; the CLI front end (`mpq extract`, an anchored file) is driven with 1–3 names incl. missing ones × --skip-errors × threads: a failing name may only affect its own slot.",
          "The schedule is rayon's; scheduling independence is sampled, not proved. Thread count 0 / batch size 0 outside the domain.",
          "DESIGN.md §4 C09"),
  "C06": ("exploration",
@@ -58,12 +58,12 @@ CHECKS = {
          "DESIGN.md §4 C06"),
  "C15": ("exploration",
          "proptest generators + deterministic grid; round trip through both parser generations; independent chunk walker / reference encoder; metamorphic conversion relation (convert-then-write equals native write)",
-         "Quick runs 222 grid/canary cases (11 versions × empty/one/many roots, groups, 49 conversion pairs) plus 40k random roots, 25k groups and 24k conversions (thorough 2.67M). Each root is written, parsed by both parser generations and compared field by field (floats bitwise) with the input; the second write is byte-compared; an independent walker transcribed from the WMO v17 description checks exact chunk tiling, MOHD counts against chunk/record sizes and list lengths, MOTX/MOGN/MODN offset resolution, MOGP extent and sub-chunk reference encodings; conversions must preserve content and serialise like the native target-version value; writers are also run into sinks that already hold a longer file; a skybox handed to a version without one must be dropped completely.",
+         "Quick runs 222 grid/canary cases (11 versions × empty/one/many roots, groups, 49 conversion pairs) plus 40k random roots, 25k groups and 24k conversions (thorough 2.67M). Each root is written, parsed by both parser generations and compared field by field (floats bitwise) with the input; the second write is byte-compared; an independent walker transcribed from the WMO v17 description checks exact chunk tiling, MOHD counts against chunk/record sizes and list lengths, MOTX/MOGN/MODN offset resolution, MOGP extent and sub-chunk reference encodings; conversions must preserve content and serialise like the native target-version value; writers are also run into sinks that already hold a longer file; a skybox handed to a version without one must be dropped completely; a parsed root taken through WmoEditor (convert_to_version, save_root) is saved exactly as write_root writes the editor's root at its current version; doodad set names include two-byte UTF-8 letters.",
          "Trusted: the transcription of record sizes/layouts from the wowdev description. 4 writer/parser disagreements remain open (legacy group parser is a stub, MLIQ header layout, doodad names, empty group name); 10 were repaired in /repo. Group second-write identity and liquid vertices are undecidable until a parser returns them.",
          "DESIGN.md §4 C15"),
  "C10": ("fault_enumeration",
          "enumerated faults (every byte of every protected region × three xor masks + seeded multi-byte overwrites) on one archive per kind of integrity metadata, judged in supervised workers against read / SFileVerifyFile (libstorm.so) / V4 md5_status / verify_signature",
-         "For sector-checksum, attributes CRC32, attributes CRC32+MD5, V4 digest and weak-signature archives (also behind a prefix, and V3/V4 archives with 1 600 / 2 600 files whose 8-bit HET hashes collide) the protected regions are located and every byte is faulted; a faulted image must fail to open/read, or a verify operation must report failure, or every file must still read bit-identical (signed archives: any change ⇒ not WeakValid); intact images must read identically and verify everywhere. Function level: library-generated signatures over random byte strings around the 64 KiB digest unit verify and stop verifying after data-bit and signature-bit flips; the 72-byte signature area is placed inside, touching and straddling (every split) the digest-unit boundaries, every byte within 100 bytes of it must invalidate and every byte inside it must not. Quick enumerates ≈58k faulted images, thorough every mask at every offset (exhaustive over the enumerated regions).",
+         "For sector-checksum, attributes CRC32, attributes CRC32+MD5, V4 digest and weak-signature archives (also behind a prefix, V3/V4 archives with 1 600 / 2 600 files whose 8-bit HET hashes collide, V4 archives with compressed HET/BET tables) the protected regions are located and every byte is faulted; a faulted image must fail to open/read, or a verify operation must report failure, or every file must still read bit-identical (signed archives: any change ⇒ not WeakValid); intact images must read identically and verify everywhere. Function level: library-generated signatures over random byte strings around the 64 KiB digest unit verify and stop verifying after data-bit and signature-bit flips; the 72-byte signature area is placed inside, touching and straddling (every split) the digest-unit boundaries, every byte within 100 bytes of it must invalidate and every byte inside it must not. Quick enumerates ≈58k faulted images, thorough every mask at every offset (exhaustive over the enumerated regions).",
          "Regions are located with the library's own header/find_file on the intact archive (location only). Only bytes the present metadata protects are faulted. A crash/OOM/hang on a faulted image is not silent corruption: it is counted and judged by C05. The sector offset table of a file is judged only where content digests or a signature protect it (sector checksums cover the stored sectors). One open finding under its own signature: an overwrite that changes sector data and zeroes the checksum entries of the same sectors is accepted (entry 0 = 'no checksum'); any other undetected damage is a violation.",
          "DESIGN.md §4 C10"),
  "C03": ("exploration",
@@ -73,13 +73,13 @@ CHECKS = {
          "DESIGN.md §4 C03"),
  "C12": ("fault_enumeration",
          "ptrace supervisor numbering every sandbox file-system call of build/compact; every call index × {kill before, kill after, ENOSPC, EIO, short write} + byte quotas; destination-state oracle",
-         "For ArchiveBuilder::build (destination absent / existing archive / non-archive bytes × 3 file sets) and MutableArchive::compact, V1..V4, a counting run yields the N file-system calls that touch the sandbox; every k in 1..N is then killed before/after, failed with ENOSPC/EIO or shortened, and byte quotas model a full disk. Afterwards the destination must be absent (only if it was), byte-identical to before, or a complete new archive that opens and reads back every file; reported Err ⇒ previous state, reported Ok ⇒ new state. Exhaustive over k for the enumerated configurations (thorough; quick strides the non-essential previous-state variants).",
+         "For ArchiveBuilder::build (destination absent / existing archive / non-archive bytes × 3 file sets; destinations named dest.mpq, dest.tmp, archive.mpq.tmp or reached through a symbolic link) and MutableArchive::compact, V1..V4, a counting run yields the N file-system calls that touch the sandbox; every k in 1..N is then killed before/after, failed with ENOSPC/EIO or shortened, and byte quotas model a full disk. Afterwards the destination must be absent (only if it was), byte-identical to before, or a complete new archive that opens and reads back every file; reported Err ⇒ previous state, reported Ok ⇒ new state. Exhaustive over k for the enumerated configurations (thorough; quick strides the non-essential previous-state variants).",
          "Process death and failing system calls are modelled, not power-loss reordering. Compaction is traced on a handle without pending changes (in-place flush is not claimed atomic). x86_64 ptrace.",
          "DESIGN.md §4 C12"),
  "C13": ("exploration",
          "property-based round-trip / metamorphic testing (proptest + deterministic grid) with an independent header/record layout walker (m2layout)",
-         "On every generated model (28 sections each empty/one/many, key-frame payloads on all track kinds up to 2 049 keys, extreme floats, long names) in versions 256/260/264/272, every skin in old/new layouts and every anim file in both containers: parse(write(x)) equals x on all listed content bitwise, write(parse(write(x))) == write(x), an independent walker finds every (count, offset) inside the file and non-overlapping, convert to the same version changes neither content nor bytes, and convert a→b (all 25 pairs, both entry points) keeps every field both versions have a slot for; panics are failures; every writer is also run into a sink and a file that already hold a longer file (nothing of the old content may survive). Quick ≈55k cases, thorough 1.28 M.",
-         "Sampled, not exhaustive. No retail-format conformance, no chunked MD21 (no writer). One open root cause (legacy .anim container: placeholder parser; 2 signatures) is steered around and measured by canaries; the other nine were repaired in /repo.",
+         "On every generated model (28 sections each empty/one/many, key-frame payloads on all track kinds up to 2 049 keys, extreme floats, long names) in versions 256/260/264/272 and the intermediate build numbers 257–259/261–263/265–271, every skin in old/new layouts (header versions 0–4 incl. Legion and BfA) and every anim file in both containers: parse(write(x)) equals x on all listed content bitwise, write(parse(write(x))) == write(x), an independent walker finds every (count, offset) inside the file and non-overlapping, convert to the same version changes neither content nor bytes, and convert a→b (all 25 pairs, both entry points) keeps every field both versions have a slot for; panics are failures; every writer is also run into a sink and a file that already hold a longer file (nothing of the old content may survive). Quick ≈55k cases, thorough 1.28 M.",
+         "Sampled, not exhaustive. No retail-format conformance, no chunked MD21 (no writer). One open root cause (legacy .anim container: placeholder parser; 2 signatures) is steered around and measured by canaries; the other ten were repaired in /repo.",
          "DESIGN.md §4 C13"),
  "C14": ("exploration",
          "property-based round-trip (proptest shapes + deterministic materialiser through the public AdtBuilder) + independent chunk/offset walker + metamorphic rebuild rounds + grid and canaries",
@@ -88,12 +88,12 @@ CHECKS = {
          "DESIGN.md §4 C14"),
  "C16": ("exploration",
          "proptest volume + deterministic grid + exhaustive 64×64 shape sweep; round trip plus an independent byte-level structural judge (blpcheck)",
-         "For generated images (1×1…512×512 plus strips with a side of 8 192…65 535, 7 shape classes, 8 pixel classes) × all 25 targets × mipmaps × filters: parse(encode(image_to_blp(img))) equals the encoded texture; header fields, mip chain, per-level sizes and offset/size tables read from the raw bytes satisfy the statement; every level decodes to the halved dimensions; Raw3 level 0 is bit-exact with the source; for Raw1 every decoded colour is the palette entry of the stored index and the stored alpha code is a quantisation (trunc/round/floor/ceil accepted) of the source alpha; BLP0 external mip levels: surplus levels must not change the result, a missing one must not be skipped silently; saving over an older, larger texture leaves exactly the new one. Quick ≈70k cases, thorough 642 567.",
+         "For generated images (1×1…512×512 plus strips with a side of 8 192…65 535, 7 shape classes, 8 pixel classes) × all 25 targets × mipmaps × filters: parse(encode(image_to_blp(img))) equals the encoded texture; header fields, mip chain, per-level sizes and offset/size tables read from the raw bytes satisfy the statement; every level decodes to the halved dimensions; Raw3 level 0 is bit-exact with the source; for Raw1 every decoded colour is the palette entry of the stored index and the stored alpha code is a quantisation (trunc/round/floor/ceil accepted) of the source alpha, and a source of uniform alpha (opaque / transparent) has that alpha code in every smaller level; BLP0 external mip levels: surplus levels must not change the result, a missing one must not be skipped silently; saving over an older, larger texture leaves exactly the new one. Quick ≈70k cases, thorough 642 567.",
          "One open finding: a JPEG BLP with a side of 65 535 that the crate itself encoded panics inside the zune-jpeg dependency on decode (signature names the dependency). Lossy colour fidelity and mip pixel content are not judged.",
          "DESIGN.md §4 C16"),
  "C17": ("exploration",
          "proptest volumes + deterministic grid against an independent WDBC encoder/decoder (dbcenc) and a model table; differential over access paths",
-         "≈20 000 (quick) / 400 000 (thorough) generated tables over all nine field types, arrays 1..8, key anywhere, 0..10 000 records, duplicate/empty/non-ASCII/suffix-shared strings, three reference string-block layouts. Each table is parsed from an independently encoded file and compared with the model on the eager, cached-string, lazy (iterator and indexed), memory-mapped and parallel paths (with the checked and with its own unvalidated schema) with hashed and binary key lookups, rewritten with DbcWriter, the written bytes judged by an independent decoder (size equation, each string once, every value and reference), and all paths compared again.",
+         "≈20 000 (quick) / 400 000 (thorough) generated tables over all nine field types, arrays 1..8, key anywhere, 0..10 000 records, duplicate/empty/non-ASCII/suffix-shared strings, three reference string-block layouts. Each table is parsed from an independently encoded file and compared with the model on the eager, cached-string, lazy (iterator front to back, iterator skipped after being advanced, indexed), memory-mapped and parallel paths (with the checked and with its own unvalidated schema) with hashed and binary key lookups, rewritten with DbcWriter (fresh writer, writer into a used sink, one writer used for two saves), the written bytes judged by an independent decoder (size equation, each string once, every value and reference), and all paths compared again.",
          "No open finding; string blocks without a leading NUL and signed Int32 keys are generated. WDBC only.",
          "DESIGN.md §4 C17"),
  "C18": ("exploration",
